@@ -239,5 +239,9 @@ def standard_run(pid, modname, tier, seed):
                outcome_histogram=dict(sorted(outcomes.items(), key=lambda kv: -kv[1])[:40]),
                slowest_case_s=round(max([r['t'] for r in results] or [0]), 2))
     if hasattr(rn.mod, 'summarize'):
-        cov.update(rn.mod.summarize(results, tier, seed))
+        extra = dict(rn.mod.summarize(results, tier, seed) or {})
+        sf = extra.pop('fails', None)
+        if sf:
+            results = list(results) + [dict(case=dict(kind='whole-run condition'), t=0.0, fails=sf)]
+        cov.update(extra)
     return rn.finish(results, cov, assumptions=getattr(rn.mod, 'ASSUMPTIONS', None))
